@@ -238,6 +238,9 @@ class Interpolation(Node):
         "default_marker",
     )
 
+    # Character entities in the expression text are decoded (markup)
+    decode_htmlentities = True
+
 
 class Replace(Node):
     """Replace non-empty value with string."""
